@@ -2,7 +2,7 @@
    tables).  Directives: ExtrOcamlBasic and ExtrOcamlString only. *)
 From Coq Require Import ZArith List String.
 From Coq Require Extraction ExtrOcamlBasic ExtrOcamlString.
-From Gigue Require Import Types Bits Enc Disasm GenTables.
+From Gigue Require Import Types Bits Enc Disasm GenTables Builder.
 
 Extraction Blacklist String List.
 
@@ -15,4 +15,8 @@ Separate Extraction
   Disasm.extract_funct7 Disasm.extract_imm_b Disasm.extract_imm_i Disasm.extract_imm_j
   Disasm.extract_imm_s Disasm.extract_imm_u Disasm.extract_pc_relative_offset
   Disasm.gnu_mask_match Disasm.rvo_6_2 Disasm.rvo_1_0 Disasm.rocket_bitpat Disasm.cva6_bits
+  Builder.build_method_base_call Builder.build_pic_base_call Builder.build_interpreter_trampoline_method_call
+  Builder.build_interpreter_trampoline_pic_call Builder.build_switch_case Builder.build_pc_relative_reg_save
+  Builder.fixer_method_base_call Builder.fixer_pic_base_call Builder.build_prologue Builder.build_epilogue
+  Builder.build_call_jit_elt_trampoline Builder.build_ret_from_jit_elt_trampoline
   GenTables.base_table GenTables.rimi_table GenTables.fixer_table.
